@@ -47,6 +47,9 @@ import (
 //     and the order of the three observations of a judged step is drawn per case.
 //   * one peer subscribes to node management and never reads: the use-case data of the last notification
 //     it received after an operation must be the registry.
+//   * burst: while the owners work, two more goroutines add and remove FRESH entities that never declare a use case
+//     (DeviceLocal.AddEntity/RemoveEntity of [10] and [11]: the dynamically appearing EV). Entity management of another
+//     entity is no use-case operation: all expectations (own part after every operation, union at the end) stay as they are.
 
 var (
 	c20Actors = []model.UseCaseActorType{model.UseCaseActorTypeCEM, model.UseCaseActorTypeMonitoringAppliance}
@@ -72,7 +75,7 @@ func init() {
 			"non-trivial if it contained an overwrite, a removal of the last use case of an actor and an operation on an unknown use case while at least two entities held use cases. " +
 			"conc: case = per-owner histories of 6-14 operations run by three or (one entity split by actor, 60% of the cases) four goroutines, one of which may remove/re-add its entity, plus observers, a reading peer and a subscribed peer, hook policy (rendezvous of 2 or 3 / jitter at UseCase.afterCopy) from the case PRNG; " +
 			"non-trivial if at least one snapshot was taken while a mutator was in flight and every porcupine partition was decided. " +
-			"burst: four goroutines (two entities and the two actors of the third; one entity owner also removes/re-adds its entity) run 400 (race: 100) unforced read-modify-write cycles each without hooks (every third case with a subscribed peer) and look at their own part of the registry after every operation (GOMAXPROCS 8); non-trivial always. distinct = hash of the operation shapes (kinds and shape classes, not versions).",
+			"burst: four goroutines (two entities and the two actors of the third; one entity owner also removes/re-adds its entity) run 400 (race: 100) unforced read-modify-write cycles each without hooks (every third case with a subscribed peer) and look at their own part of the registry after every operation (GOMAXPROCS 8), while two further goroutines keep adding and removing fresh entities without use cases ([10], [11]) until the owners are done; non-trivial always. distinct = hash of the operation shapes (kinds and shape classes, not versions).",
 		Assumptions: []string{
 			"'equals the registry' is judged on the set of (entity address, actor, use case name -> version, sub revision, availability, scenario list) entries; the order of entries and of supports is not compared",
 			"operations on an entity that is currently not part of the device (after RemoveEntity) still address the registry; the statement does not exclude them",
@@ -80,6 +83,7 @@ func init() {
 			"a porcupine verdict Unknown (timeout) makes the case inconclusive",
 			"'scenarios last given' means the values the slice had when AddUseCaseSupport was called: what the application does with its slice after the call returned must not show in the registry (signature " + c20SigAlias + ")",
 			"an entity that is modified by two goroutines is split by actor and neither of them calls RemoveAllUseCaseSupports / RemoveEntity on it: operations on different (actor, name) keys commute, so the expectation stays the union of the owners' sequential results",
+			"DeviceLocal.AddEntity/RemoveEntity of an entity that never declared a use case is not one of the statement's operations and leaves the registry of every other entity as it is ('operations on one entity never affect another entity's use cases'); the number of such cycles that overlap the owners' bursts depends on the scheduler (counted as burst_fresh_entities_added_and_removed_meanwhile), the expectation does not",
 			"the use-case data a subscribed peer is sent with a notification counts as 'data a peer reads from node management': the last notification that an operation produced must carry the registry (no notification at all is not judged here)",
 		},
 		Parts: []rig.Part{
@@ -1424,10 +1428,42 @@ func c20Burst(c *rig.Ctx) {
 			}
 		}(u)
 	}
+	// The dynamically appearing EV: two more goroutines add and remove FRESH entities that never declare a use case
+	// (DeviceLocal.AddEntity / RemoveEntity, addresses [10] and [11]) for as long as the owners work. They are not use
+	// case operations and touch no entity of the registry, so every expectation stays what it is: "operations on one
+	// entity never affect another entity's use cases", and the registry is the union of the owners' results. (An entity
+	// management path that stores use-case data outside the use-case critical section loses an owner's update.)
+	var churnStop atomic.Bool
+	var churned int64
+	var cwg sync.WaitGroup
+	for g := 0; g < 2; g++ {
+		cwg.Add(1)
+		go func(g int) {
+			defer cwg.Done()
+			<-start
+			pan := eGuard(c, "AddEntity/RemoveEntity of a fresh entity", func() {
+				for i := 0; i < 200000 && !churnStop.Load(); i++ {
+					ev := spine.NewEntityLocal(cw.w.Local, model.EntityTypeTypeEV, spine.NewAddressEntityType([]uint{uint(10 + g)}), 4*time.Second)
+					cw.w.Local.AddEntity(ev)
+					if i%2 == 1 {
+						runtime.Gosched()
+					}
+					cw.w.Local.RemoveEntity(ev)
+					atomic.AddInt64(&churned, 1)
+				}
+			})
+			if pan != "" {
+				c.Violate("burst/call-panics", "%s", pan)
+			}
+		}(g)
+	}
 	close(start)
 	wg.Wait()
+	churnStop.Store(true)
+	cwg.Wait()
 	c.Events(atomic.LoadInt64(&judged))
 	c.Count("burst_operations", atomic.LoadInt64(&judged))
+	c.Count("burst_fresh_entities_added_and_removed_meanwhile", atomic.LoadInt64(&churned))
 	for i, d := range devs {
 		if i >= 3 {
 			break
